@@ -239,7 +239,8 @@ def apply_defect(ch, fs, d, kind):
         if pseudo:
             fs.insert(ch.int(0, max(0, len(pseudo) - 1)), (b'cookie', b'a=b'))
     elif d == 'odd-bytes':
-        fs.append((ch.pick([b'x-bin', b'x\x00y', b'x-\xff']), ch.pick([b'\x00', b'a\x00b', b'\xff\xfe', b'\xc3\xa9', b'\x80'])))
+        fs.append((ch.pick([b'x-bin', b'x\x00y', b'x-\xff', b'x-caf\xc3\xa9', b'x-caf\xe9']),
+                   ch.pick([b'\x00', b'a\x00b', b'\xff\xfe', b'\xc3\xa9', b'\x80'])))
     elif d == 'empty-name':
         fs.insert(ch.int(len(pseudo), len(fs)), (b'', ch.pick([b'v', b''])))
     elif d == 'empty-value' and anyi is not None:
